@@ -71,6 +71,23 @@ def _classify(job):
             if not np.array_equal(pf.filter(tp[:, 0], tp[:, 1]), ~want):
                 out.append(("inverted filter is not the complement",
                             "poly %s" % case["poly"]))
+            # copies: plain copies classify alike, inverted copies are the
+            # complement - of an inverted filter as well
+            c_same = pf.copy()
+            c_inv = pf.copy(invert=True)
+            if not np.array_equal(c_same.filter(tp[:, 0], tp[:, 1]), ~want):
+                out.append(("copy of an inverted filter classifies "
+                            "differently", "poly %s" % case["poly"]))
+            if not np.array_equal(c_inv.filter(tp[:, 0], tp[:, 1]), want):
+                out.append(("inverted copy of an inverted filter is not "
+                            "the complement", "poly %s" % case["poly"]))
+            pf.inverted = False
+            if not np.array_equal(pf.copy(invert=True).filter(
+                    tp[:, 0], tp[:, 1]), ~want):
+                out.append(("inverted copy is not the complement",
+                            "poly %s" % case["poly"]))
+            for o in (c_same, c_inv):
+                PolygonFilter.remove(o.unique_id)
         # scalar entry point
         k = hash(str(case["poly"])) % len(free)
         if bool(PolygonFilter.point_in_poly(pts[k], vv)) != bool(want[k]):
